@@ -38,6 +38,20 @@ def _borrowing_helpers(tu):
     return bh
 
 
+def _null_test(tu, node, v):
+    """True / False: the label of the edge of this cond node on which `v` is NULL (v == NULL, NULL == v, !v -> True; v != NULL,
+    NULL != v, v -> False); None when the node does not test v against NULL.  (The CFG builder has already split && / || / !.)"""
+    if node.kind != "cond" or node.ast is None:
+        return None
+    t = " ".join(tu.src(node.ast).split()).strip("()").strip()
+    e = re.escape(v)
+    if re.fullmatch(r"%s\s*==\s*NULL|NULL\s*==\s*%s" % (e, e), t):
+        return True
+    if re.fullmatch(r"%s\s*!=\s*NULL|NULL\s*!=\s*%s" % (e, e), t) or t == v:
+        return False
+    return None
+
+
 def _producer(tu, nm, bh):
     if not nm or nm in BORROW or nm in bh:
         return False
@@ -101,19 +115,14 @@ def release(ctx, P, rule="REF-RELEASE", only=None, floor=100, tu_key=None):
             # `if (ret == NULL) { Py_XDECREF(v); }` in the cleanup: on the paths that still own v, ret IS NULL (ret = v hands it over),
             # so the guarded release counts as a release at the test
             for c in cfg.nodes:
-                if c.kind == "cond" and c.ast is not None and re.fullmatch(r"\(?\s*ret\s*==\s*NULL\s*\)?", " ".join(tu.src(c.ast).split())):
-                    if any(t_ in rel for t_, lab in c.succ if lab is True):
-                        rel.append(c)
+                pol = _null_test(tu, c, "ret")
+                if pol is not None and any(t_ in rel for t_, lab in c.succ if lab is pol):
+                    rel.append(c)
 
             def null_branch(a, b, lab):
-                if a.kind != "cond" or a.ast is None:
-                    return False
-                t = " ".join(tu.src(a.ast).split())
-                if re.fullmatch(r"\(?\s*%s\s*==\s*NULL\s*\)?" % e, t):
-                    return lab is True
-                if re.fullmatch(r"\(?\s*%s\s*!=\s*NULL\s*\)?" % e, t) or t == v:
-                    return lab is False
-                return False
+                # the edge on which v is known to be NULL
+                pol = _null_test(tu, a, v)
+                return pol is not None and lab is pol
             leak = None
             for a_ in acq:
                 path = cfg.find_path(a_, set(rets), avoid=[r_ for r_ in rel if r_ is not a_], avoid_edge=null_branch) if rets else None
